@@ -141,9 +141,10 @@ theorem gen_notify :
     Dtn7.Gen.C18.notifyCopiesSprayAndWait = ["sw.l", "1"] ∧
     Dtn7.Gen.C18.notifyConditionsSprayAndWait =
       ["sw.c.HasEndpoint(bp.MustBundle().PrimaryBlock.SourceNode)"] ∧
-    Dtn7.Gen.C18.notifyCopiesBinarySpray = ["binarySprayBlock.RemainingCopies()", "bs.l"] ∧
+    Dtn7.Gen.C18.notifyCopiesBinarySpray = ["binarySprayBlock.RemainingCopies()", "bs.l", "1"] ∧
     Dtn7.Gen.C18.notifyConditionsBinarySpray =
-      ["metadataBlock, err := bp.MustBundle().ExtensionBlock(bpv7.ExtBlockTypeBinarySprayBlock); err == nil"] ∧
+      ["metadataBlock, err := bp.MustBundle().ExtensionBlock(bpv7.ExtBlockTypeBinarySprayBlock); err == nil",
+       "bs.c.HasEndpoint(bp.MustBundle().PrimaryBlock.SourceNode)"] ∧
     Dtn7.Gen.C18.multiplicitySourceSprayAndWait = ["config.Multiplicity"] ∧
     Dtn7.Gen.C18.multiplicitySourceBinarySpray = ["config.Multiplicity"] ∧
     Dtn7.Gen.C18.multiplicityHasCodeDefault = false ∧
@@ -151,10 +152,11 @@ theorem gen_notify :
     Dtn7.Gen.C18.binarySprayBlockType = 192 := by decide
 
 /-- The remaining accesses to `bundleData`: `NotifyNewBundle` stores the fresh entry under `Lock` (one
-of two branches), `GarbageCollect` runs `cleanupMetaData` under `Lock`. No access outside the mutex. -/
+of its two resp. three branches), `GarbageCollect` runs `cleanupMetaData` under `Lock`. No access outside the mutex. -/
 theorem gen_other_locks :
     Dtn7.Gen.C18.notifyOpsSprayAndWait = ["lock", "write", "unlock", "lock", "write", "unlock"] ∧
-    Dtn7.Gen.C18.notifyOpsBinarySpray = ["lock", "write", "unlock", "lock", "write", "unlock"] ∧
+    Dtn7.Gen.C18.notifyOpsBinarySpray =
+      ["lock", "write", "unlock", "lock", "write", "unlock", "lock", "write", "unlock"] ∧
     Dtn7.Gen.C18.garbageCollectCallsSprayAndWait =
       ["sw.dataMutex.Lock", "cleanupMetaData", "sw.dataMutex.Unlock"] ∧
     Dtn7.Gen.C18.garbageCollectCallsBinarySpray =
